@@ -411,16 +411,19 @@ from nunavut.cli import _make_parser  # noqa: E402
 from nunavut.cli.runners import ArgparseRunner  # noqa: E402
 
 _PARSER = _make_parser()
+_FE, _FL = int(os.environ.get("C13_FE", "-1")), int(os.environ.get("C13_FL", "-1"))      # split over processes
 
 
 def cli_defaults_never_displace_file_values(file_endianness: int, flag_endianness: int, file_asserts: bool, flag_asserts: bool) -> bool:
     """
-    pre: 0 <= file_endianness <= 2 and 0 <= flag_endianness <= 2
+    pre: 0 <= file_endianness <= 3 and 0 <= flag_endianness <= 3
+    pre: (_FE < 0 or file_endianness == _FE) and (_FL < 0 or flag_endianness == _FL)
     post: _
     """
     # "values that are merely defaults of the command line never displace a value given explicitly in a file": the REAL argument parser
-    # (its own defaults), the real ArgparseRunner._create_language_context, a configuration file as parsed
-    names = [None, "little", "big"]
+    # (its own defaults), the real ArgparseRunner._create_language_context, a configuration file as parsed.  Every documented choice of the
+    # flag is tried, including the one that equals the built-in default ("any"): given explicitly, it still wins over the file.
+    names = [None, "little", "big", "any"]
     argv = ["/dsdl/root", "--target-language", "c", "--configuration", "cfgfile"]
     if names[flag_endianness]:
         argv = ["--target-endianness", names[flag_endianness]] + argv
